@@ -25,9 +25,16 @@ func TestVerif_C10(t *testing.T) {
 		"non-trivial = distinct (K, T, round-zero?, window?) observations and distinct measured (K, p, vector) triples")
 	r.Assume("the key set K and threshold T are the ones verifyFinalization uses (the same calls); membership above 50 nodes cannot be created (pledge validation caps it)")
 	rng := r.Rand()
+	roundZeroOfAccepted := false
 	observe := func(h *verifHistory, node *Node, ts uint64, pledging *verifMember, cfg string) {
-		ch := &Chain{node: node, ChainId: h.Members[0].Id, State: &ChainState{}}
+		// a running chain knows its own node (ConsensusInfo) whether it is pledging or long accepted
+		m0 := h.Members[0]
+		ch := &Chain{node: node, ChainId: m0.Id, State: &ChainState{},
+			ConsensusInfo: &CNode{IdForNetwork: m0.Id, Signer: m0.Signer, State: common.NodeStateAccepted}}
 		round := uint64(1)
+		if roundZeroOfAccepted {
+			round = 0 // a round-zero certificate presented for a chain that is already running
+		}
 		if pledging != nil {
 			ch = &Chain{node: node, ChainId: pledging.Id, ConsensusInfo: &CNode{IdForNetwork: pledging.Id, Signer: pledging.Signer, State: common.NodeStatePledging}}
 			round = 0
@@ -38,7 +45,7 @@ func TestVerif_C10(t *testing.T) {
 		_, base := h.refThreshold(ts, true)
 		r.Eval()
 		win := h.refRemoving(ts) != nil
-		r.Nontrivial(fmt.Sprintf("%d|%d|%v|%v", K, T, pledging != nil, win))
+		r.Nontrivial(fmt.Sprintf("%d|%d|%v|%v|%v", K, T, pledging != nil, win, roundZeroOfAccepted))
 		r.Count("observations", 1)
 		if pledging != nil {
 			r.Count("round_zero_observations", 1)
@@ -63,6 +70,9 @@ func TestVerif_C10(t *testing.T) {
 			return
 		}
 		cls := "later-round"
+		if roundZeroOfAccepted && pledging == nil {
+			cls = "round-zero-of-a-running-chain"
+		}
 		if pledging != nil {
 			cls = "round-zero-acceptance"
 			if base%3 != 0 {
@@ -111,6 +121,11 @@ func TestVerif_C10(t *testing.T) {
 						node := h.nodeNoCache()
 						cfg := fmt.Sprintf("accepted=%d young=%d edge=%s%+dns pledging=%v", n, young, time.Duration(edge), d, pl)
 						observe(h, node, ts, pledging, cfg)
+						if !pl {
+							roundZeroOfAccepted = true
+							observe(h, node, ts, nil, cfg+" round-zero-of-a-running-chain")
+							roundZeroOfAccepted = false
+						}
 						// and inside / outside the daily operation window
 						for _, hr := range []uint64{3, 16, 20} {
 							t2 := epoch + 6*OneDay + hr*uint64(time.Hour) + uint64(rng.Intn(3600))*uint64(time.Second)
@@ -166,6 +181,9 @@ func TestVerif_C10(t *testing.T) {
 				}
 			}
 			observe(h, node, ts, nil, "random-history")
+			roundZeroOfAccepted = true
+			observe(h, node, ts, nil, "random-history round-zero-of-a-running-chain")
+			roundZeroOfAccepted = false
 			if pledging != nil {
 				observe(h, node, ts, pledging, "random-history-pledging-chain")
 			}
